@@ -118,6 +118,20 @@ CHECKS["C02"] = dict(cat="translation_validation", ref="4 C02 / 11.17", engine="
    note="Within the bound: single operations (no trees). Many double-precision division / square-root queries in a non-default rounding mode and single-precision "
         "arithmetic (double rounding) come back unknown from Z3 within the per-query cap: reported inconclusive, never as held. Known findings: "
         "C02-rounding-mode-ignored (whole fold obligations of add/sub/mul/div/sqrt/int->float in a non-RNE mode), C02-int-to-single-double-rounding.")
+CHECKS["C03"] = dict(cat="translation_validation", ref="4 C03 / 11.18", engine="pysym",
+   text="fold:<op>:<lengths> - claripy's eager folding of string operations runs on SYMBOLIC concrete operands: string values are shadows of concrete length "
+        "whose code points (0..0x2FFFF) are symbolic, index operands are symbolic 64-bit constants; the real constructors, Base.__new__ folding, the "
+        "backend_concrete/strings.py kernels (re-compiled from the current source with string literals lifted to shadows) and the generic == / != dispatch "
+        "are executed, and per explored path Z3's sequence theory decides folded result == SMT-LIB operation for all code points and index values. One "
+        "obligation per operation and operand-length combination (lengths 0..2 quick, 0..3 thorough), also on operands that differ only in annotations. "
+        "z3:<op> - BackendZ3's translation over StringS/BVS leaves against an independently built term. lit:<k> - 37 boundary literals (NUL, backslash, text "
+        "that looks like a Z3 escape, quotes, astral characters) reach Z3 as exactly their code points. conc:IntToStr:<k> - boundary integers. "
+        "lemma:references - the facts the fold-leg references rely on, proved by Z3 on every run. Counterexamples are replayed natively on plain Python strings "
+        "against Z3's ground evaluation.",
+   technique="symbolic execution of the real Python code on string/int shadows; Z3 sequence theory decides equality with the SMT-LIB term per path",
+   note="Within the bound: single operations; code points up to 0x2FFFF (Z3's character sort); IntToStr up to 4 digits symbolically (+ boundary values concretely). "
+        "StrIsDigit has no solver translation and is outside the claim. A regular expression built from symbolic characters is explored on one solver-chosen "
+        "representative and reported inconclusive (the repaired kernels use none).")
 CHECKS["C25"] = dict(cat="translation_validation", ref="4 C25 / 11.9", engine="pysym",
    text="claripy.constraint_to_si / Balancer run on constraints whose constants are symbolic (the VSA min/max/eval/is_true calls and the interval "
         "arithmetic inside run on the same shadows). Per explored path Z3 decides, for all constants and every assignment that satisfies c (claripy's "
